@@ -19,15 +19,31 @@
 // before and after Scan (tree, cwd unchanged; tmp back to its seeded state).
 //
 // (b) images: raw tar layers from the entry alphabet in image.go (names/targets made of
-// '..', '.', '', 'a', 'out2', 300 x 'a', relative and absolute; regular/dir/symlink/hardlink),
-// all single entries, all ordered pairs (1 layer and split over 2 layers) and, thorough, triples
-// whose extra entry writes through an earlier link, inserted at every position. Entry points:
-// image.FromV1Image + CleanUp, image.FromTarball + CleanUp, Unpacker.UnpackSquashed,
+// '..', '.', the empty segment, 'a', 'out2', 300 x 'a', relative and absolute; regular/dir/symlink/hardlink).
+// Blocks, simplest first: all single entries of the full alphabet x 4 entry points x every
+// configuration; all ordered pairs over the pair alphabet (1 layer and split over 2 layers);
+// thorough only: triples = ordered pair + a write-through of one of its links, inserted at every
+// position, every 1-2 layer split. Entry points: image.FromV1Image + CleanUp,
+// image.FromTarball + CleanUp (singles and thorough pairs only - it is FromV1Image behind
+// go-containerregistry's tarball reader), Unpacker.UnpackSquashed,
 // Unpacker.UnpackSquashedFromTarball, under the configuration tables in image.go. Oracle: only
-// S/out (resp. the image's fresh ExtractDir) differs from the before-snapshot; after
-// CleanUp / after an error return R is back to the before-snapshot; every symlink left in the
-// designated directory resolves (component by component, stopping at the first missing component)
-// to a location inside it.
+// S/out (resp. the image's fresh ExtractDir) differs from the before-snapshot; after CleanUp, and
+// after an error return without an image, R is back to the before-snapshot; every symlink left in
+// the designated directory resolves (component by component, stopping at the first missing
+// component) to a location inside it. A few probe paths on the real root (/a, /out2, ...) are
+// checked too; they are shared by all workers, so such a finding is attributed to a case only if
+// it shows again when that case is re-run.
+//
+// Cause keys are derived from what changed where:
+//
+//	scan:<plugin>:<area>-<created|left|modified|deleted>[+...]   (plugin found by re-running the tree with single plugins)
+//	unpack-raw-tarball|unpack-squashed : mkdir-before-check (directory created outside out),
+//	  symlink-unchecked (symlink created outside), prefix-sibling (regular file written into
+//	  out2/out-evil), linkcopy-unchecked (0644 copy of a link written outside in SymlinkIgnore
+//	  mode), file-written-outside:<area>, deleted-outside:<area>, modified-outside:<area>,
+//	  tmp-left, symlink-resolves-outside, host-root-written
+//	layerscan : file-written-outside:<area>, dir-created-outside:<area>, symlink-created-outside:<area>,
+//	  tmp-left-after-{load,cleanup,error}, extractdir-left-after-cleanup, symlink-resolves-outside
 //
 // Don't-care cells (accepted whatever the implementation does):
 //   - what ends up INSIDE the designated directory (content, modes, which entries are kept or
@@ -266,12 +282,33 @@ func worker() {
 			if len(res.Viols) > 0 {
 				again := runImageCase(sb, c)
 				sum.Evals++
+				// the real root is shared by all workers: a probe path seen there is attributed to this
+				// case only if it appears again when the case is re-run
+				split := func(vs []viol) (own, host []viol) {
+					for _, v := range vs {
+						if v.Host {
+							host = append(host, v)
+						} else {
+							own = append(own, v)
+						}
+					}
+					return
+				}
+				own, host := split(res.Viols)
+				ownAgain, hostAgain := split(again.Viols)
 				tag := "V"
-				if keysOf(again.Viols) != keysOf(res.Viols) {
+				if keysOf(ownAgain) != keysOf(own) {
 					tag = "N"
 				}
-				for _, v := range res.Viols {
+				for _, v := range own {
 					send(tag, vmsg{Idx: idx, Key: v.Key, What: v.What, Replay: map[string]any{"phase": "image", "case": c}})
+				}
+				for _, v := range host {
+					if len(hostAgain) > 0 {
+						send("V", vmsg{Idx: idx, Key: v.Key, What: v.What, Replay: map[string]any{"phase": "image", "case": c}})
+					} else {
+						send("V", vmsg{Idx: idx, Key: "host-root-written:unattributed", What: "noticed while running " + v.What + " (may stem from a case of another worker)", Replay: map[string]any{"phase": "image", "case": c}})
+					}
 				}
 			}
 			return true
